@@ -27,32 +27,34 @@ structure St where
   held : List Var
   leaked : Bool
   flags : List (Nat × Bool)
+  foreign : Bool        -- a `close` was applied to a variable that holds no handle opened here (caller's object)
 deriving Repr, DecidableEq
 
 /-- the initial state: nothing held, nothing leaked, no flag set -/
-def St.init : St := ⟨[], false, []⟩
+def St.init : St := ⟨[], false, [], false⟩
 
 def pop : List Bool → Bool × List Bool
   | [] => (false, [])
   | b :: bs => (b, bs)
 
 def openSt (v : Var) (s : St) : St :=
-  ⟨v :: s.held.erase v, s.leaked || s.held.contains v, s.flags⟩
+  ⟨v :: s.held.erase v, s.leaked || s.held.contains v, s.flags, s.foreign⟩
 
-def closeSt (v : Var) (s : St) : St := ⟨s.held.erase v, s.leaked, s.flags⟩
+def closeSt (v : Var) (s : St) : St :=
+  ⟨s.held.erase v, s.leaked, s.flags, s.foreign || !s.held.contains v⟩
 
 /-- ownership transfer `dst := src`: if `src` is held it is replaced by `dst`;
 overwriting a held `dst` leaks it (as `openSt` does); otherwise no-op -/
 def moveSt (dst src : Var) (s : St) : St :=
   if s.held.contains src then
     let h := s.held.erase src
-    ⟨dst :: h.erase dst, s.leaked || h.contains dst, s.flags⟩
+    ⟨dst :: h.erase dst, s.leaked || h.contains dst, s.flags, s.foreign⟩
   else s
 
 /-- flags are kept as an association list with at most one binding per key,
 newest first (old binding for `f` is removed) -/
 def setFlagSt (f : Nat) (b : Bool) (s : St) : St :=
-  ⟨s.held, s.leaked, (f, b) :: s.flags.filter (fun p => p.1 != f)⟩
+  ⟨s.held, s.leaked, (f, b) :: s.flags.filter (fun p => p.1 != f), s.foreign⟩
 
 /-- current value of a flag; unset reads as `false` -/
 def getFlag (f : Nat) (s : St) : Bool :=
@@ -194,6 +196,13 @@ def outs : Stmt → St → Option (List Res)
 def leakFree (p : Stmt) : Bool :=
   match outs p St.init with
   | some l => l.all fun r => r.2.held.isEmpty && !r.2.leaked
+  | none => false
+
+/-- no outcome from the initial state has closed a variable it did not own (used for write()/to_csv(): a file
+object supplied by the caller is never closed) -/
+def noForeignClose (p : Stmt) : Bool :=
+  match outs p St.init with
+  | some l => l.all fun r => !r.2.foreign
   | none => false
 
 /-- syntactic: does the statement contain `close v` anywhere -/
